@@ -206,6 +206,8 @@ int main(int argc, char** argv) {
     add(w.n, w.r, P["triangle"], {2}, 2, def ? 1 : -1, 2, 4);
     add(w.n, w.r, P["reacquire"], {1, 1}, 2, def ? 1 : -1, 2, 4);
     add(w.n, w.r, P["abort-heavy"], {2}, 2, 1, 2, 4);
+    if (def)
+      add(w.n, w.r, P["big-push"], {2}, 2, 0, 1, 4);
     add(w.n, w.r, P["fan"], {1, 1}, 2, -1, 2, 4);
     add(w.n, w.r, P["triangle"], {3}, 3, def ? 1 : -1, 1, 3);
     add(w.n, w.r, P["cross"], {1, 1, 1}, 3, def ? 1 : -1, 1, 3);
